@@ -1,6 +1,7 @@
 //! C12 – field width, alignment, truncation: correspondence with model/Padded.v + direct oracle.
 //!
-//! Every case is one single-line template `pre{key:<align><W>[!]}post` (or `pre{wide_msg[:align]}post`)
+//! Every case is one single-line template `pre{key:<align><W>[!]}post`, `pre{key:<align><W>[!].STYLE}post`
+//! (styled field, colours on or off: `console::set_colors_enabled`) or `pre{wide_msg[:align]}post`
 //! rendered through the public API on a recording terminal; the observable is the bar line
 //! handed to `TermLike::write_str`.
 use console::measure_text_width as mtw;
@@ -326,18 +327,53 @@ fn align_spec(al: Al, implicit_left: bool) -> &'static str {
     }
 }
 
+/// the texts console writes before / after a value styled with the dotted style string `st`
+/// (colours forced on or off): computed with the console crate, independently of indicatif
+fn style_texts(st: &str, colors: bool) -> (String, String) {
+    let full = console::Style::from_dotted_str(st).force_styling(colors).apply_to("\u{1}").to_string();
+    let mut it = full.splitn(2, '\u{1}');
+    (it.next().unwrap().to_string(), it.next().unwrap_or("").to_string())
+}
+
 #[allow(clippy::too_many_arguments)]
 fn run_field(s: &mut Session, pre: &str, post: &str, key: Key, content: &str, w: Option<u16>, al: Al, tr: bool, implicit_left: bool, label: &str) {
+    run_field_styled(s, pre, post, key, content, w, al, tr, implicit_left, label, None)
+}
+
+/// `sty`: Some((dotted style string, colours enabled)) gives the placeholder a `.STYLE` part:
+/// `pre{key:<align>W[!].STYLE}post`.  The field must be the style's texts (console crate) around a
+/// field that meets the same clauses as an unstyled one - in particular an EMPTY content is
+/// padded to W columns (seeded defect C12-6 dropped such a field altogether).
+#[allow(clippy::too_many_arguments)]
+fn run_field_styled(
+    s: &mut Session,
+    pre: &str,
+    post: &str,
+    key: Key,
+    content: &str,
+    w: Option<u16>,
+    al: Al,
+    tr: bool,
+    implicit_left: bool,
+    label: &str,
+    sty: Option<(&str, bool)>,
+) {
     let keyname = match key {
         Key::Msg => "msg",
         Key::Prefix => "prefix",
         Key::Custom => "ck",
     };
+    let dot = sty.map_or(String::new(), |(st, _)| format!(".{st}"));
     let tpl = match w {
-        Some(w) => format!("{pre}{{{keyname}:{}{w}{}}}{post}", align_spec(al, implicit_left), if tr { "!" } else { "" }),
+        Some(w) => format!("{pre}{{{keyname}:{}{w}{}{dot}}}{post}", align_spec(al, implicit_left), if tr { "!" } else { "" }),
+        None if sty.is_some() => format!("{pre}{{{keyname}:{dot}}}{post}"),
         None => format!("{pre}{{{keyname}}}{post}"),
     };
-    let desc = format!("field tpl={tpl:?} content={}", short(content));
+    let (spre, spost) = sty.map_or((String::new(), String::new()), |(st, colors)| style_texts(st, colors));
+    let desc = match sty {
+        Some((_, colors)) => format!("field tpl={tpl:?} colors={colors} content={}", short(content)),
+        None => format!("field tpl={tpl:?} content={}", short(content)),
+    };
     let (cc, cpre, cpost) = match (char_cols(content), char_cols(pre), char_cols(post)) {
         (Some(a), Some(b), Some(c)) if mtw(&format!("{pre}{content}{post}")) == mtw(pre) + mtw(content) + mtw(post) => (a, b, c),
         _ => {
@@ -347,7 +383,20 @@ fn run_field(s: &mut Session, pre: &str, post: &str, key: Key, content: &str, w:
         }
     };
     let cols = mtw(content);
+    // the global colour switch of the console crate decides whether a `.STYLE` part writes escape
+    // sequences (indicatif's styles are not forced); the harness is single threaded
+    console::set_colors_enabled(sty.map_or(false, |x| x.1));
     let got = render(&tpl, key, content, u16::MAX);
+    console::set_colors_enabled(false);
+    if let Some((st, colors)) = sty {
+        s.count(if colors { "styled:colors-on" } else { "styled:colors-off" });
+        s.count(&format!("styled:style:{st}"));
+        s.count(if spre.is_empty() { "styled:no-escape-text" } else { "styled:escape-text" });
+        if content.is_empty() {
+            s.count(if w.is_some() { "styled:EMPTY-content-with-width" } else { "styled:empty-content-no-width" });
+            s.count(&format!("styled:empty:key:{keyname}"));
+        }
+    }
     // distribution
     s.count(&format!("field:align:{al:?}"));
     s.count(&format!("field:key:{keyname}"));
@@ -396,14 +445,37 @@ fn run_field(s: &mut Session, pre: &str, post: &str, key: Key, content: &str, w:
             if !(line.len() >= pre.len() + post.len() && line.starts_with(pre) && line.ends_with(post)) {
                 s.fail("literal-lost", format!("line {} does not start/end with the literals", short(line)), desc.clone());
             } else {
-                let field = &line[pre.len()..line.len() - post.len()];
-                match w {
-                    None => {
+                let whole = &line[pre.len()..line.len() - post.len()];
+                // a styled field: W columns when the content fits (escape sequences have no width),
+                // and the style's texts around a field that is judged like an unstyled one
+                let fits_bad = match w {
+                    Some(w) if sty.is_some() && cols <= w as usize && mtw(whole) != w as usize => {
+                        s.fail(
+                            "fits-width",
+                            format!("styled field, content fits ({cols} <= {w}) but the field is {} columns wide: {}", mtw(whole), short(whole)),
+                            desc.clone(),
+                        );
+                        true
+                    }
+                    _ => false,
+                };
+                let field = if whole.len() >= spre.len() + spost.len() && whole.starts_with(&spre) && whole.ends_with(&spost) {
+                    Some(&whole[spre.len()..whole.len() - spost.len()])
+                } else {
+                    if !fits_bad {
+                        s.fail("styled-wrapper", format!("styled field {} is not {:?} + field + {:?}", short(whole), spre, spost), desc.clone());
+                    }
+                    None
+                };
+                match (field, w) {
+                    (None, _) => {}
+                    (Some(_), _) if fits_bad => {}
+                    (Some(field), None) => {
                         if field != content {
                             s.fail("no-width-modified", format!("placeholder without width changed its content: {}", short(field)), desc.clone());
                         }
                     }
-                    Some(w) => {
+                    (Some(field), Some(w)) => {
                         if let Err((class, detail)) = oracle_field(field, content, &cc, w as usize, al, tr, "") {
                             s.fail(&class, detail, desc.clone());
                         }
@@ -413,16 +485,37 @@ fn run_field(s: &mut Session, pre: &str, post: &str, key: Key, content: &str, w:
             Some(line.clone())
         }
     };
-    let coq = format!(
-        "CField {} {} {} {} {} {} {}",
-        rle3(&cpre),
-        rle3(&cpost),
-        rle3(&cc),
-        copt(w.map(|x| x.to_string())),
-        al.coq(),
-        cbool(tr),
-        copt(observed.map(|l| rle2(&l)))
-    );
+    let coq = match sty {
+        None => format!(
+            "CField {} {} {} {} {} {} {}",
+            rle3(&cpre),
+            rle3(&cpost),
+            rle3(&cc),
+            copt(w.map(|x| x.to_string())),
+            al.coq(),
+            cbool(tr),
+            copt(observed.map(|l| rle2(&l)))
+        ),
+        Some(_) => {
+            // escape sequences: every character 0 columns (char_cols), as C12_styled_fits assumes
+            let z = |t: &str| char_cols(t).unwrap_or_else(|| t.chars().map(|c| (c, 0)).collect());
+            if mtw(&spre) + mtw(&spost) != 0 {
+                s.fail("styled-wrapper", format!("the style's texts {spre:?} / {spost:?} are not zero columns wide"), desc.clone());
+            }
+            format!(
+                "CStyled {} {} {} {} {} {} {} {} {}",
+                rle3(&cpre),
+                rle3(&cpost),
+                rle3(&cc),
+                copt(w.map(|x| x.to_string())),
+                al.coq(),
+                cbool(tr),
+                rle3(&z(&spre)),
+                rle3(&z(&spost)),
+                copt(observed.map(|l| rle2(&l)))
+            )
+        }
+    };
     s.case(coq, desc, w.is_some());
 }
 
@@ -613,7 +706,7 @@ fn main() {
     let header = "From IndModel Require Import Base Padded.\nOpen Scope N_scope.\n";
     let mut s = Session::new(&a, "C12", header, "c12case", "c12_check");
     s.shard_size = 200;
-    s.rule = "single-line templates pre{key:[<^>]W[!]}post (key = msg | prefix | custom key) and pre{wide_msg[:<^>]}post rendered through ProgressBar/ProgressStyle on a recording TermLike; W in 0..=65535 biased to the content's column width +-4, 0, 1 and the u16 boundaries; contents from ASCII, 2-byte, combining, CJK, 3-byte narrow, zero-width, U+17D8, emoji, 4-byte narrow and ANSI SGR alphabets, length 0..400 (corpus: 70000); non-trivial = a width (or wide_msg) is present; distinct = distinct (template, content, terminal width) text".into();
+    s.rule = "single-line templates pre{key:[<^>]W[!]}post (key = msg | prefix | custom key), the same with a `.STYLE` part pre{key:[<^>]W[!].STYLE}post (1 random field in 6 and a systematic family: every alignment x with/without ! x colours on/off x msg/prefix/custom key x 6 style/width pairs with EMPTY content; the style's escape texts are computed with the console crate and handed to the model as data) and pre{wide_msg[:<^>]}post rendered through ProgressBar/ProgressStyle on a recording TermLike; W in 0..=65535 biased to the content's column width +-4, 0, 1 and the u16 boundaries; contents from ASCII, 2-byte, combining, CJK, 3-byte narrow, zero-width, U+17D8, emoji, 4-byte narrow and ANSI SGR alphabets, length 0..400 (corpus: 70000); non-trivial = a width (or wide_msg) is present; distinct = distinct (template, content, terminal width) text".into();
     let mut g = Gen { r: Rng::new(a.seed) };
 
     table_facts(&mut s);
@@ -660,6 +753,37 @@ fn main() {
     }
     run_field(&mut s, "[", "]", Key::Msg, abc, None, Al::L, false, true, "ascii");
 
+    // ---------------------------------------------------------------- styled fields
+    // {sized field} x {`.STYLE` part} x {EMPTY content}: the witness of seeded defect C12-6 first (the
+    // cargo-like "{prefix:>12.cyan.bold} serde" with the prefix cleared: the text after the field must
+    // stay in column 13), then all alignments x with/without `!` x colours on/off x msg / prefix /
+    // custom key x styles (with attributes, without any = unknown word, 256-colour) x widths; then the
+    // same fields with non-empty content (fits, exact, wider) and styled fields without a width.
+    run_field_styled(&mut s, "", " serde v1.0", Key::Prefix, "", Some(12), Al::R, false, false, "empty", Some(("cyan.bold", false)));
+    run_field_styled(&mut s, "", " serde v1.0", Key::Prefix, "", Some(12), Al::R, false, false, "empty", Some(("cyan.bold", true)));
+    run_field_styled(&mut s, "|", "|0", Key::Msg, "", Some(1), Al::L, false, true, "empty", Some(("green", false)));
+    for al in [Al::L, Al::C, Al::R] {
+        for tr in [false, true] {
+            for colors in [false, true] {
+                for key in [Key::Msg, Key::Prefix, Key::Custom] {
+                    for (st, w) in [("red", 5u16), ("bold.dim", 1), ("on_blue.underlined", 12), ("nosuchstyle", 4), ("238", 7), ("red", 0)] {
+                        run_field_styled(&mut s, "[", "]", key, "", Some(w), al, tr, false, "empty", Some((st, colors)));
+                    }
+                }
+                for (content, w) in [("ab", 7u16), ("abcde", 5), ("abcdefgh", 5), ("日本", 7), ("é", 1)] {
+                    run_field_styled(&mut s, "[", "]", Key::Msg, content, Some(w), al, tr, false, "styled-nonempty", Some(("red.bold", colors)));
+                }
+            }
+        }
+    }
+    for colors in [false, true] {
+        for key in [Key::Msg, Key::Prefix, Key::Custom] {
+            // no width: the style wraps the bare content, an empty one included
+            run_field_styled(&mut s, "[", "]", key, "", None, Al::L, false, true, "empty", Some(("red", colors)));
+            run_field_styled(&mut s, "[", "]", key, "xy", None, Al::L, false, true, "styled-nonempty", Some(("bold", colors)));
+        }
+    }
+
     // ---------------------------------------------------------------- random
     let n = if a.thorough { 30_000 } else if a.extended { 25_000 } else { 2_600 };
     for _ in 0..n {
@@ -698,7 +822,19 @@ fn main() {
             let post = g.literal(true);
             // an entirely empty line is not drawn at all (style.rs:397): keep one literal
             let pre = g.literal(!post.is_empty());
-            run_field(&mut s, &pre, &post, key, &content, w, al, tr, implicit, label);
+            if g.r.chance(1, 6) {
+                // a `.STYLE` part; half of the styled fields have EMPTY content
+                let st = *g.r.pick(&["red", "bold", "cyan.bold", "on_black.green.dim", "blink", "nosuchstyle", "13", "bright.yellow"]);
+                let colors = g.r.chance(1, 2);
+                if g.r.chance(1, 2) {
+                    let w = if g.r.chance(1, 12) { None } else { Some(*g.r.pick(&[0u16, 1, 2, 3, 5, 8, 12, 20, 80, 255, 256, 1000])) };
+                    run_field_styled(&mut s, &pre, &post, key, "", w, al, tr, implicit, "empty", Some((st, colors)));
+                } else {
+                    run_field_styled(&mut s, &pre, &post, key, &content, w, al, tr, implicit, label, Some((st, colors)));
+                }
+            } else {
+                run_field(&mut s, &pre, &post, key, &content, w, al, tr, implicit, label);
+            }
         }
     }
     s.finish();
